@@ -10,6 +10,7 @@ import (
 	"google.golang.org/protobuf/encoding/protojson"
 	"google.golang.org/protobuf/encoding/prototext"
 	"google.golang.org/protobuf/proto"
+	"google.golang.org/protobuf/reflect/protoreflect"
 	"google.golang.org/protobuf/types/dynamicpb"
 )
 
@@ -172,6 +173,55 @@ func (c *libCtx) libCase(v, other *vval.Val, replay string) {
 		ops := c.mutateBoth(srcA, nil, 2)
 		if got := c.canon(dstA); got != dstBefore {
 			viol("merge-independent", fmt.Sprintf("mutating the merge source (%v) changed the destination", ops))
+		}
+	}
+	// ---- reflective field copy dst.Set(fd, src.Get(fd)) of every populated list/map field, then the
+	// source's fields are cleared and refilled: operations on one message must not change another one
+	// (C08; outside the value-semantic model, decided on the real code only)
+	{
+		srcA, srcD, _ := c.pair(v)
+		dstA := t.B.ToMessage(0, vval.Empty(S, 0))
+		dstD := dynamicpb.NewMessage(t.Desc)
+		sr, dr := srcA.ProtoReflect(), dstA.ProtoReflect()
+		var copied []int
+		for j := range S.Msgs[0].Fields {
+			f := &S.Msgs[0].Fields[j]
+			if f.Shape != vschema.Repeated && f.Shape != vschema.Map {
+				continue
+			}
+			fd, fdD := fdOf(sr, f), fdOf(srcD, f)
+			if !sr.Has(fd) || !srcD.Has(fdD) {
+				continue
+			}
+			dr.Set(fd, sr.Get(fd))
+			dstD.Set(fdD, srcD.Get(fdD))
+			copied = append(copied, j)
+		}
+		if len(copied) > 0 {
+			b.Count("lib_field_copy_cases")
+			after := c.canon(dstA)
+			if got, w := c.view(dstA), c.rview(dstD); got != w {
+				b.Violate("C08", "field-copy", "dst.Set(fd, src.Get(fd)) gives "+clip(got, 300)+" reference "+clip(w, 300), replay)
+			}
+			for _, j := range copied {
+				f := &S.Msgs[0].Fields[j]
+				fd := fdOf(sr, f)
+				var k0 protoreflect.MapKey
+				if f.Shape == vschema.Map {
+					sr.Get(fd).Map().Range(func(k protoreflect.MapKey, _ protoreflect.Value) bool { k0 = k; return false })
+				}
+				sr.Clear(fd)
+				if f.Shape == vschema.Repeated {
+					l := sr.Mutable(fd).List()
+					l.Append(l.NewElement())
+				} else {
+					mp := sr.Mutable(fd).Map()
+					mp.Set(k0, mp.NewValue())
+				}
+			}
+			if got := c.canon(dstA); got != after {
+				b.Violate("C08", "clear-changes-other-message", fmt.Sprintf("after dst.Set(fd, src.Get(fd)), clearing and refilling the source's fields %v changed the destination: %s -> %s", copied, clip(after, 300), clip(got, 300)), replay)
+			}
 		}
 	}
 	// ---- Reset
